@@ -547,12 +547,26 @@ func pendingAt(c *crashFS, k int) (pending, nondurable, scrubDurable []string) {
 // operations, then a clean reopen and an audit (C10)
 func genFaults(c *ctx, emit func(string)) {
 	r := rand.New(rand.NewSource(c.seed))
+	// a counted fault no call reaches: the call sees only the fault modes
+	const never = "! c8"
+	bigLog := func(g *wgen) string {
+		l := &raft.Log{Index: g.last + 1, Term: 1, Data: bytes.Repeat([]byte{7}, g.seg), AppendedAt: baseTime}
+		return "S 1 " + logFields(l, true)
+	}
 	for i := 0; i < c.n; i++ {
 		g := newWgen(r, "m")
 		n := 3 + r.Intn(10)
 		for j := 0; j < n; j++ {
-			if r.Intn(3) == 0 {
+			armed := false
+			switch x := r.Intn(12); {
+			case x < 3:
 				g.ops = append(g.ops, fmt.Sprintf("! %x", r.Intn(5)))
+			case x < 5: // a counted fault together with fault modes
+				g.ops = append(g.ops, fmt.Sprintf("? %x", 1+r.Intn(7)), fmt.Sprintf("! %x", r.Intn(6)))
+				armed = true
+			case x < 6: // only the modes: every deletion of the call fails
+				g.ops = append(g.ops, "? 1", never)
+				armed = true
 			}
 			switch x := r.Intn(10); {
 			case x < 6:
@@ -564,11 +578,14 @@ func genFaults(c *ctx, emit func(string)) {
 			default:
 				g.reads()
 			}
+			if armed && r.Intn(3) > 0 {
+				g.ops = append(g.ops, "~")
+			}
 			if r.Intn(3) == 0 {
 				g.ops = append(g.ops, "A")
 			}
 		}
-		switch r.Intn(7) {
+		switch r.Intn(15) {
 		case 0: // fault inside a suffix truncation, exactly one more batch, reopen
 			if !g.empty() && g.last > g.first {
 				g.ops = append(g.ops, fmt.Sprintf("! %x", r.Intn(2)), fmt.Sprintf("D %x %x", g.last, g.last+uint64(r.Intn(2))))
@@ -581,9 +598,7 @@ func genFaults(c *ctx, emit func(string)) {
 		case 3: // fault in the append that would seal the tail, then a tail truncation without reopen
 			if !g.empty() {
 				g.ops = append(g.ops, fmt.Sprintf("! %x", r.Intn(2)))
-				sz := g.seg
-				l := &raft.Log{Index: g.last + 1, Term: 1, Data: bytes.Repeat([]byte{7}, sz), AppendedAt: baseTime}
-				g.ops = append(g.ops, "S 1 "+logFields(l, true), "W", fmt.Sprintf("D %x %x", g.last, g.last))
+				g.ops = append(g.ops, bigLog(g), "W", fmt.Sprintf("D %x %x", g.last, g.last))
 				if g.last > g.first {
 					g.last--
 				} else {
@@ -602,9 +617,98 @@ func genFaults(c *ctx, emit func(string)) {
 			g.store()
 			g.first, g.last = save.first, save.last
 			g.store()
+		case 5, 6: // a truncation whose deletions all fail; the files stay until an Open removes
+			// them, and the clean-up of that Open may fail as well
+			g.ops = append(g.ops, "~")
+			for j := 0; j < 2+r.Intn(3); j++ {
+				g.ops = append(g.ops, bigLog(g), "W")
+				g.last++
+				if g.first == 0 {
+					g.first = g.last
+				}
+			}
+			g.ops = append(g.ops, "Y", "? 1", never)
+			if r.Intn(2) == 0 {
+				mx := g.first + uint64(r.Intn(int(g.last-g.first)+1))
+				g.ops = append(g.ops, fmt.Sprintf("D 0 %x", mx))
+				if mx >= g.last {
+					g.first, g.last = 0, 0
+				} else {
+					g.first = mx + 1
+				}
+			} else {
+				mn := g.first + uint64(r.Intn(int(g.last-g.first)+1))
+				g.ops = append(g.ops, fmt.Sprintf("D %x %x", mn, g.last+1))
+				if mn <= g.first {
+					g.first, g.last = 0, 0
+				} else {
+					g.last = mn - 1
+				}
+			}
+			g.ops = append(g.ops, "~", "Y", "T")
+			if r.Intn(2) == 0 {
+				g.store()
+			}
+			if r.Intn(2) == 0 {
+				g.ops = append(g.ops, "X", "Z", "? 1", never, "O", "~", "Y", "A")
+			}
+		case 7: // the directory listing of an Open fails; the next Open succeeds
+			g.ops = append(g.ops, "~", "X", "Z", "? 2", never, "O", "~", "L", "T", "Y", "O", "A")
+			g.store()
+		case 8, 9: // the creation of the next segment file (rotation) fails and leaves the file
+			g.ops = append(g.ops, "~", "W", "? 4", fmt.Sprintf("! %x", 2+r.Intn(2)), bigLog(g), "W", "~", "Y", "T")
+			g.store()
+		case 10: // the creation of the new tail of a tail truncation fails and leaves the file
+			if !g.empty() {
+				g.ops = append(g.ops, "~", "W", "? 4", fmt.Sprintf("! %x", []int{1, 3}[r.Intn(2)]), fmt.Sprintf("D %x %x", g.last, g.last), "~", "Y", "T")
+				g.store()
+			}
+		case 11: // the empty first segment is replaced while deletions fail / the new file is left
+			g.ops = append(g.ops, "~", fmt.Sprintf("D 0 %x", g.last+5))
+			g.first, g.last = 0, 0
+			if r.Intn(2) == 0 {
+				g.ops = append(g.ops, "? 1", never)
+			} else {
+				g.ops = append(g.ops, "? 4", fmt.Sprintf("! %x", r.Intn(3)))
+			}
+			g.store()
+			g.ops = append(g.ops, "~", "Y")
+			g.store()
+		case 12, 13: // stale bytes behind the valid chain: the fsync of a long batch fails, a
+			// shorter batch is written over its start (and synced, or its fsync fails too:
+			// then it is adopted by the next Open), restart, Open with an armed fault --
+			// recovery zeroes the stale bytes and fsyncs
+			sized := func(idx uint64, n int) string {
+				// payload bytes that are no frame type: stale payload must not parse as frames
+				// (DESIGN fault2, finding "unverified stale commit frame")
+				l := &raft.Log{Index: idx, Term: uint64(1 + r.Intn(5)), Data: bytes.Repeat([]byte{byte(0x10 + r.Intn(200))}, n), AppendedAt: baseTime}
+				return "S 1 " + logFields(l, true)
+			}
+			next := g.last + 1
+			long := 40 + r.Intn(g.seg/2)
+			g.ops = append(g.ops, "~", "W", "! 1", sized(next, long), "W")
+			switch r.Intn(3) {
+			case 0: // shorter batch, synced
+				g.ops = append(g.ops, "~", sized(next, r.Intn(long/2)), "W")
+				g.last = next
+			case 1: // shorter batch whose fsync fails as well
+				g.ops = append(g.ops, "~", "! 1", sized(next, r.Intn(long/2)), "W")
+			default: // shorter batch synced, then a second short one whose fsync fails
+				g.ops = append(g.ops, "~", sized(next, r.Intn(long/4)), "W", "! 1", sized(next+1, r.Intn(long/4)), "W")
+				g.last = next
+			}
+			if g.first == 0 {
+				g.first = g.last
+			}
+			g.ops = append(g.ops, "~", "T")
+			if r.Intn(2) == 0 {
+				g.ops = append(g.ops, "X")
+			}
+			g.ops = append(g.ops, "Z", fmt.Sprintf("! %x", r.Intn(3)), "O", "T", "A")
 		}
 		g.ops = append(g.ops, "A", "T", "X", "Z", "O", "A", "Y", "P")
 		// after reopen the WAL must be usable again
+		g.ops = append(g.ops, "~", "T", "X", "Z", "O")
 		emit(strings.Join(g.ops, " ") + " " + probeOps(c, r, strings.Join(g.ops, " ")))
 	}
 }
